@@ -55,7 +55,7 @@ def generate(rng, tier, rep):
         li = rng.randrange(len(c['layers']))
         c['tests'].append({'layer': li})
         how = rng.choice(['exit0', 'exit3', 'kill', 'segv'])
-        where = ['import', 'setUp', 'body', 'tearDown', 'report', 'spawn', 'kbd_body', 'kbd_setUp', 'tsetup_raise', 'import_raise'][i % 10]
+        where = ['import', 'setUp', 'body', 'tearDown', 'report', 'spawn', 'kbd_body', 'kbd_setUp', 'tsetup_raise', 'import_raise', 'spawn_nul'][i % 11]
         if where == 'import':
             c['die_import'] = how
         elif where == 'setUp':
@@ -80,6 +80,10 @@ def generate(rng, tier, rep):
         elif where == 'tsetup_raise':
             c['layers'][li].setdefault('hooks', {})['testSetUp'] = ['raise']
             how = 'exc'
+        elif where == 'spawn_nul':
+            # not startable for another reason than the OS refusing (an argument with a NUL in it)
+            c['layers'][li]['name'] = c['layers'][li]['name'] + '\x00z'
+            c['layers'][li]['kind'] = 'instance'
         else:
             c['child_cwd'] = '/nonexistent/verif/dir'
         c['injected'] = where + '/' + how
